@@ -196,6 +196,9 @@ func rpcClient(server string) (*rpchttp.HTTP, error) {
 	if !strings.Contains(server, "://") {
 		server = "http://" + server
 	}
+	if c := verifRPCClient(server); c != nil {
+		return c, nil
+	}
 	c, err := rpchttp.New(server, "/websocket")
 	if err != nil {
 		return nil, err
